@@ -16,6 +16,12 @@ def unwrapName (tag : String) : Option String → G String
   | some n => .ok n
   | none => .error (.panic ("unwrap:" ++ tag))
 
+/-- `module.types[handle]` -/
+def typeAt (m : Module) (h : Nat) : G Ty :=
+  match m.types[h]? with
+  | some t => .ok t
+  | none => .error (.panic "bad-handle")
+
 /-- `rust_scalar_type` -/
 def rustScalarType (s : Scalar) : G RustTy :=
   match s.kind, s.width with
